@@ -27,7 +27,8 @@ RULE = ("BufferedSocket over a scripted socket: random byte streams over a 2-4 l
         "(1-3 byte delimiters taken from the stream)/recv_size/peek/recv_close/recv/setmaxsize, repeated after Timeout; "
         "send/sendall/buffer/flush under partial sends and time-outs; NetstringSocket write_ns -> chunked wire -> "
         "read_ns with arbitrary payload bytes; thorough adds every network (all compositions x time-out placements) of every "
-        "stream over {a,b} up to length 5.  non-trivial = a delimiter or a size boundary straddles a delivery "
+        "stream over {a,b} up to length 5 and every send script of length <= 4 over {1 byte, 2 bytes, all, time-out, "
+        "EWOULDBLOCK}.  non-trivial = a delimiter or a size boundary straddles a delivery "
         "edge, or a call needed >= 2 deliveries, or a Timeout left partial data buffered, or a send needed >= 2 "
         "partial sends / timed out with bytes unsent, or a netstring was read across >= 2 deliveries; distinct = "
         "distinct canonical case hash")
@@ -692,10 +693,25 @@ def gen_sweep(rng):
                        "timeout": None, "net": net, "script": [], "ops": ops, "retry": True}
 
 
+def gen_send_sweep(rng):
+    """Thorough tier: buffer(a); send(b); buffer(c); flush(); flush() under EVERY script of length <= 4 over
+    {take 1 byte, take 2 bytes, take all, socket.timeout, EWOULDBLOCK} (780 scripts), with a/b/c of length 0-3,
+    repeated after an interruption."""
+    alphabet = [0, 1, 30, "T", ["E", 11]]
+    for ln in range(0, 5):
+        for sc in itertools.product(alphabet, repeat=ln):
+            a, b, c = ([rng.randrange(256) for _ in range(rng.randint(0, 3))] for _ in range(3))
+            yield {"kind": "bs", "maxsize": 10, "recvsize": 4, "timeout": rng.choice([None, 0, 1000.0]), "net": [],
+                   "script": list(sc), "ops": [["buffer", a], ["send", b, rng.choice(["send", "sendall"])],
+                                               ["buffer", c], ["flush"], ["flush"]], "retry": True}
+
+
 def generate(rng, tier, n):
     made = 0
     if tier == "thorough":
         for c in gen_sweep(rng):
+            yield c
+        for c in gen_send_sweep(rng):
             yield c
     while made < n:
         r = rng.random()
